@@ -1168,4 +1168,25 @@ theorem tracked_le_actual (s0 : St) (ops : List Op) (g : Genesis s0) (hops : ∀
   let h := inv_run ops s0 (inv_genesis g) hops
   ⟨h.dv0, h.df0, h.tracked⟩
 
+/-! ### non-vacuity: a concrete history meets every hypothesis of the theorems above and exercises the interesting branches
+    (delegation of locked coins, a partial unlock, a send, an undelegation that matures, the blocked state afterwards) -/
+def exGenesis : St := { bank := Bank.empty.credit "a1" fee 5000, now := 100000000000, ut := 20000000000 }
+def exOps : List Op := [
+  .init .nv "a1" "a0" 1000 false 110000000000 false 210000000000,
+  .nvDelegate "a0" "a0" true fee 600 { share := 600 },
+  .block 160000000000,
+  .send "a0" "a0" "a2" fee 300,
+  .nvUndelegate "a0" "a0" true fee 100 { share := 100, rewFee := 4 },
+  .block 181000000000 ]
+
+example : Genesis exGenesis := by
+  refine ⟨rfl, rfl, rfl, rfl, rfl, rfl, rfl, rfl, ?_, ?_, ?_, ?_, ?_⟩ <;> decide
+example : ∀ op ∈ exOps, Core op ∧ OpOk op := by
+  intro op h
+  simp only [exOps, List.mem_cons, List.mem_nil_iff, or_false] at h
+  rcases h with h | h | h | h | h | h <;> subst h <;> simp [Core, OpOk, extOk, lock]
+example : (run exGenesis exOps).created = true ∧ (run exGenesis exOps).DV = 600 ∧ blocked (run exGenesis exOps) = true
+    ∧ (run exGenesis exOps).bank.bal "a2" fee = 300 ∧ custody (run exGenesis exOps) = 704
+    ∧ (match lockedT (run exGenesis exOps) 181000000000 with | .ok v => v | _ => -1) = 290 := by decide
+
 end Sunrise.C12
